@@ -155,6 +155,10 @@ def check_bfs_dfs(ctx: Ctx):
                 ctx.ob("C11-O3", "R1 STATUS-GUARD", f, f"{name} publishes {status} for a found path, decided by the goal test on the popped node", s.statuses == frozenset({status}) and f"T:is_goal({cur})" in a2, f"{sorted(s.statuses)}", node=s.call)
                 pd = [d.value for d in own_nodes(f.node) if isinstance(d, ast.Assign) and ast.unparse(d.targets[0]) == "path"]
                 ctx.ob("C11-O7", "R5 PAIRING", f, "objective = number of edges of the returned path, reconstructed from the popped node", len(pd) == 1 and ast.unparse(pd[0]) == f"reconstruct_path(parent, {cur})" and ast.unparse(s.arg("objective")) == "len(path) - 1", "", node=s.call)
+            if ast.unparse(s.arg("solution")) == "visited":
+                st = s.arg("status")
+                okv = isinstance(st, ast.IfExp) and ((ast.unparse(st.test) == f"not {cont}" and ast.unparse(st.body) == "Status.OPTIMAL" and ast.unparse(st.orelse) == "Status.MAX_ITER") or (ast.unparse(st.test) == cont and ast.unparse(st.orelse) == "Status.OPTIMAL" and ast.unparse(st.body) == "Status.MAX_ITER"))
+                ctx.ob("C11-O2", "R2 BUDGET-EXIT", f, f"without a goal the visited set is labelled OPTIMAL only if the {cont} ran empty, MAX_ITER otherwise", okv, f"status `{ast.unparse(st) if st is not None else 'default (OPTIMAL)'}`: the loop also ends on max_iter with nodes still waiting, and the partial set would pass for the reachable set", node=s.call)
             if "INFEASIBLE" in s.statuses:
                 a2 = gv.guard_atoms(s.node)
                 ctx.ob("C11-O2", "R2 BUDGET-EXIT", f, "INFEASIBLE only when the frontier ran out with budget left", atom_of("iterations < max_iter") in a2 and "T:is_goal" in a2, f"{sorted(a2)}", node=s.call)
@@ -474,6 +478,11 @@ def _v_fw_diag_after_edges(tree):
     g.body.insert(ed[0], d)
 
 
+def _v_bfs_partial_set_optimal(tree):
+    g = M.find_func(tree, "bfs")
+    M.replace_expr(g, lambda e: isinstance(e, ast.IfExp) and M.src_has(e, "Status.MAX_ITER") and M.src_has(e.test, "queue"), M.expr("Status.OPTIMAL"))
+
+
 def _v_dj_pop_budget(tree):
     g = M.find_func(tree, "dijkstra_edges")
     w = [n for n in ast.walk(g) if isinstance(n, ast.While) and M.src_is(n.test, "heap")]
@@ -527,5 +536,6 @@ VARIANTS = [
     M.Variant("dijkstra_edges stops after n pops, stale entries included (seed C11-G)", DJ, _v_dj_pop_budget, "C11-O1"),
     M.Variant("bellman_ford answers target == start before the detection pass (seed C11-H)", BF, _v_bf_trivial_query_shortcut, "C11-O4"),
     M.Variant("floyd_warshall zeroes the diagonal after reading the edges (seed C11-I)", FW, _v_fw_diag_after_edges, "C11-O5"),
+    M.Variant("bfs without a goal labels the partial visited set OPTIMAL after a budget exit (original defect)", BS, _v_bfs_partial_set_optimal, "C11-O2"),
     M.Variant("twin: floyd_warshall i/j loops swapped", FW, _t_fw_swap_ij, None),
 ]
